@@ -14,7 +14,7 @@ import (
 
 // Run generates the C13 cases.
 func Run(r *hk.Run) {
-	r.Res.Rule = "a case = one random storage tree (depth ≤ 3; inner namespace, proxycache[max] over memcache[max] or a store, overlay, shard and replica over 2, 3 or 4 sub-stores, cond; leaves memory, some localdisk/diskpacked) whose EVERY leaf sits behind a fault wrapper with its own call schedule (call i of that leaf: none / fails before any effect / takes effect but answers an error), and a history of single-key receive/fetch/stat/remove and enumerate; thorough: for a history, one case per (leaf, call index the healthy run makes, failure kind) = single faults exhaustively, plus random bursts; every op under a watchdog. Oracle: three-valued reference map (a failed receive/remove leaves its key undetermined until the next successful read resolves it); an error answer needs an injected failure, every other answer must be exact for some resolution, and once all schedules are exhausted the store must answer exactly like the reference map. Below the Storage interface (sweep.go, child processes): for the files store over a recording VFS and for diskpacked over a recording index KeyValue, every lower-layer call (counted from the call log of a healthy run) of receive-new / re-receive of an acknowledged blob / remove / remove-absent / fetch / stat / enumerate fails once in each of its modes (no effect; effect but error answer), on a store holding acknowledged blobs; after each: answer is an error or exact, every acknowledged unremoved blob is fetched back intact and stat'ed, the op's own blob is absent or intact, enumerate lists exactly what can be fetched, a healthy retry succeeds and leaves the exact state, diskpacked re-indexes. Encrypt programs (encrypt.go): one encrypt storage over a wrapped META and a wrapped BLOBS memory store, 215 receives (meta compaction starts in the background when the heap of small meta blobs exceeds 100 entries: twice per program; the harness waits after every operation until the goroutine is gone), failures at the k-th call / k-th ReceiveBlob / k-th RemoveBlobs of either store - each call of the background compaction (packed upload, removal of the small meta blobs) in both modes, and random bursts over all calls -, live reads of acknowledged blobs, then, failures stopped, a FRESH encrypt storage with an empty meta index over the same two stores must fetch every acknowledged blob bit-identically, enumerate it with its size, and accept a new blob. Generator restrictions that keep per-leaf call numbers deterministic (the model has no scheduler): trees with an overlay below a merging node (shard/replica/cond/overlay) enumerate only in the quiet phase and with an unreachable limit; no replica/cond below a proxycache origin; trees with replica/cond have memory leaves only; after every op the harness waits until the goroutines the op started have ended. distinct_nontrivial = distinct (tree shape, schedule pattern) pairs in which at least one failure was injected and the quiet continuation was reached"
+	r.Res.Rule = "a case = one random storage tree (depth ≤ 3; inner namespace, proxycache[max] over memcache[max] or a store, overlay, shard and replica over 2, 3 or 4 sub-stores, cond; leaves memory, some localdisk/diskpacked) whose EVERY leaf sits behind a fault wrapper with its own call schedule (call i of that leaf: none / fails before any effect / takes effect but answers an error), and a history of single-key receive/fetch/stat/remove and enumerate; thorough: for a history, one case per (leaf, call index the healthy run makes, failure kind) = single faults exhaustively, plus random bursts; every op under a watchdog. Oracle: three-valued reference map (a failed receive/remove leaves its key undetermined until the next successful read resolves it); an error answer needs an injected failure, every other answer must be exact for some resolution, and once all schedules are exhausted the store must answer exactly like the reference map. Below the Storage interface (sweep.go, child processes): for the files store over a recording VFS and for diskpacked over a recording index KeyValue, every lower-layer call (counted from the call log of a healthy run) of receive-new / re-receive of an acknowledged blob / remove / remove-absent / a RemoveBlobs batch of three acknowledged blobs / a batch mixing present and absent blobs / fetch / stat / a StatBlobs batch / enumerate fails once in each of its modes (no effect; effect but error answer), on a store holding acknowledged blobs; after each: answer is an error or exact, every acknowledged unremoved blob is fetched back intact and stat'ed, the op's own blob is absent or intact, enumerate lists exactly what can be fetched, a healthy retry succeeds and leaves the exact state, diskpacked re-indexes; each blob of a failed batch is fully removed or fully present with its bytes, the acknowledged bystander is untouched. The same sweep runs on storage trees (memory/localdisk/diskpacked leaf, 3-way shard, overlay, proxycache with and without eviction, namespace, replica, cond, nested) whose leaves fail at the Storage interface. Encrypt programs (encrypt.go): one encrypt storage over a wrapped META and a wrapped BLOBS memory store, 215 receives (meta compaction starts in the background when the heap of small meta blobs exceeds 100 entries: twice per program; the harness waits after every operation until the goroutine is gone), failures at the k-th call / k-th ReceiveBlob / k-th RemoveBlobs of either store - each call of the background compaction (packed upload, removal of the small meta blobs) in both modes, and random bursts over all calls -, live reads of acknowledged blobs, then, failures stopped, a FRESH encrypt storage with an empty meta index over the same two stores must fetch every acknowledged blob bit-identically, enumerate it with its size, and accept a new blob. Generator restrictions that keep per-leaf call numbers deterministic (the model has no scheduler): trees with an overlay below a merging node (shard/replica/cond/overlay) enumerate only in the quiet phase and with an unreachable limit; no replica/cond below a proxycache origin; trees with replica/cond have memory leaves only; after every op the harness waits until the goroutines the op started have ended. distinct_nontrivial = distinct (tree shape, schedule pattern) pairs in which at least one failure was injected and the quiet continuation was reached"
 	genCases(r)
 	mechanisms(r)
 	sweeps(r)
@@ -24,7 +24,8 @@ func Run(r *hk.Run) {
 
 // sweeps: exhaustive single faults over every lower-layer call (VFS call of the files store, index
 // KeyValue call of diskpacked) of receive-new / re-receive / remove / remove-absent / fetch / stat /
-// enumerate (sweep.go), in child processes.
+// enumerate, and of multi-blob RemoveBlobs / StatBlobs batches (sweep.go), in child processes; and the same sweep one
+// level up: storage trees whose leaves fail at the Storage interface, all leaves sharing one call numbering.
 func sweeps(r *hk.Run) {
 	var lines, setApplied []string
 	sizes := []int{40}
@@ -39,11 +40,31 @@ func sweeps(r *hk.Run) {
 			lines = append(lines, fmt.Sprintf("probe dpsweep %d %d", sz, m))
 		}
 	}
+	trees := []string{"mem", "shard3 mem mem mem", "overlay mem mem", "proxy:100000 mem memcache:100000", "proxy:1 mem memcache:1",
+		"ns mem", "replica mem mem", "cond mem mem", "shard overlay mem mem ns mem", "localdisk", "diskpacked"}
+	if r.Thorough() {
+		trees = append(trees, "replica3 mem mem mem", "shard replica mem mem proxy:60 mem mem", "overlay shard mem mem mem",
+			"ns shard3 mem localdisk diskpacked", "proxy:100000 overlay mem mem memcache:60", "shard4 mem mem mem mem")
+	}
+	for _, t := range trees {
+		for _, sz := range sizes {
+			if sz == 100000 {
+				continue
+			}
+			lines = append(lines, fmt.Sprintf("probe treesweep %d %s", sz, t))
+		}
+	}
 	for _, l := range lines {
 		o, st := childProbe(r, l, 300*time.Second)
 		which := "files"
 		if strings.Contains(l, "dpsweep") {
 			which = "diskpacked"
+		}
+		if strings.Contains(l, "treesweep") {
+			which = "tree-strict"
+			if strings.Contains(l, "replica") || strings.Contains(l, "cond") {
+				which = "tree-replica"
+			}
 		}
 		f := strings.Fields(o)
 		if st != "exit0" || len(f) < 6 || !strings.HasPrefix(f[len(f)-1], "violations=") && !strings.Contains(o, " violations=") {
@@ -113,8 +134,17 @@ func sweepSignature(which, v string) string {
 	}
 	call = strings.TrimPrefix(digitsRe.ReplaceAllString(call, ""), "call-")
 	check = digitsRe.ReplaceAllString(check, "")
-	if which == "diskpacked" && sc == "rm" && call == "CommitBatch-b" && check == "blob-fetched-as-zeros" {
+	// F-C13-9: the index batch of a (single or multi-blob) RemoveBlobs fails after every blob of the call
+	// was wiped: the rows survive and serve zeros
+	if which == "diskpacked" && strings.HasPrefix(sc, "rm") && call == "CommitBatch-b" && check == "blob-fetched-as-zeros" {
 		return "diskpacked-failed-remove-serves-zeros"
+	}
+	// F-C13-3: replica's best-effort remove acknowledged although one replica's removal failed
+	if which == "tree-replica" && strings.HasPrefix(sc, "rm") && strings.HasSuffix(call, ".RemoveBlobs-b") && check == "absent-blob-appeared" {
+		return "blob-served-after-faulted-remove-answered-ok:replica"
+	}
+	if i := strings.IndexByte(call, '.'); i >= 0 && strings.HasPrefix(call, "L") {
+		call = call[i+1:] // the leaf's position does not make a different class
 	}
 	return which + "-sweep:" + sc + ":" + call + ":" + check
 }
